@@ -19,8 +19,27 @@ func checkC03(r *Run) {
 	r5 := r.Rule("R-C03-5", "Retry(): ascending order, stop at first failure, re-queue [continuation, unattempted tail] in this order")
 	r6 := r.Rule("R-C03-6", "after a reconnect Resubscribe (if any) is queued before Retry")
 	r7 := r.Rule("R-C03-7", "API requests go through the task queue (R-C01-1)")
+	r8 := r.Rule("R-C03-8", "queued publishing is the default: the RetryClient created by NewReconnectClient has DirectlyPublishQoS0 unset, and nothing in the package sets it")
 	r2.Floor(8)
 	r3.Floor(3)
+	nSet := 0
+	for _, f := range c.Funcs {
+		eachInstr(f, func(in ssa.Instruction) {
+			st, ok := in.(*ssa.Store)
+			if !ok {
+				return
+			}
+			if _, isD := isFieldAddr(st.Addr, "RetryClient", "DirectlyPublishQoS0"); isD {
+				nSet++
+				if b, isK := constBool(st.Val); !isK || b {
+					r8.Bad(FuncName(f)+"/DirectlyPublishQoS0", st.Pos(), "the library itself turns on DirectlyPublishQoS0: QoS 0 messages bypass the queue by default and overtake queued messages")
+				}
+			}
+		})
+	}
+	if nSet == 0 {
+		r8.OK("DirectlyPublishQoS0", token.NoPos, "no store to RetryClient.DirectlyPublishQoS0 in the package: the zero value (queued mode) is the default")
+	}
 	a := c.retryAnchors()
 	if a.lost(r1) {
 		return
